@@ -366,6 +366,8 @@ def lex_clike(src: str, lang: str):
             return ["illegal unicode escape"], ""
         src = u
     nls = NL["js" if lang == "typescript" else {"golang": "go"}.get(lang, lang)]
+    # ES2019: U+2028/U+2029 may occur raw inside string literals (node accepts them)
+    str_nls = "\n\r" if lang == "typescript" else nls
     out: List[str] = []
     i, n = 0, len(src)
 
@@ -381,7 +383,7 @@ def lex_clike(src: str, lang: str):
                 continue
             if c == q:
                 return k + 1
-            if not multiline and c in nls:
+            if not multiline and c in str_nls:
                 errors.append(f"line {line_of(k)}: unterminated {q} literal")
                 return k
             k += 1
